@@ -85,7 +85,7 @@ func main() {
 			mandatory = append(mandatory, "dynamic-issuer:own-host-honoured:"+ep+":"+rn, "dynamic-issuer:other-host-refused:"+ep+":"+rn)
 		}
 		for _, st := range dynStrategies {
-			mandatory = append(mandatory, "dynamic-issuer:strategy:"+st+":"+rn)
+			mandatory = append(mandatory, "dynamic-issuer:strategy:"+st+":"+rn, "dynamic-issuer:spoofed-forwarded-header:"+rn)
 		}
 		mandatory = append(mandatory, "dynamic-issuer:first-host:A:"+rn, "dynamic-issuer:first-host:B:"+rn)
 	}
